@@ -39,7 +39,9 @@ namespace GeographicLib {
     real sphi, cphi, slam, clam;
     Math::sincosd(Math::LatFix(lat), sphi, cphi);
     Math::sincosd(lon, slam, clam);
-    real n = _a/sqrt(1 - _e2 * Math::sq(sphi));
+    // cphi^2 + e2m * sphi^2 = 1 - e2 * sphi^2 without the cancellation for
+    // e2 close to 1
+    real n = _a/sqrt(Math::sq(cphi) + _e2m * Math::sq(sphi));
     Z = (_e2m * n + h) * sphi;
     X = (n + h) * cphi;
     Y = X * slam;
